@@ -196,7 +196,15 @@ def _forced(draw):
     n = len(plain)
     ins = draw(st.lists(st.tuples(st.integers(0, n), st.integers(0, len(Q) - 1)).map(list), max_size=10))
     cuts = sorted(draw(st.lists(st.integers(0, n), min_size=2, max_size=6, unique=True)))
-    spans = [[cuts[i], cuts[i + 1]] for i in range(0, len(cuts) - 1, 2)]
+    if draw(st.booleans()):
+        spans = [[cuts[i], cuts[i + 1]] for i in range(0, len(cuts) - 1, 2)]
+    else:  # abutting spans: the end of one is the start of the next
+        spans = [[cuts[i], cuts[i + 1]] for i in range(len(cuts) - 1)]
+    # inserted material exactly at annotation boundaries (that is where the two translation flavours differ)
+    for a, b in spans:
+        for edge in (a, b):
+            if draw(st.integers(0, 2)) == 0:
+                ins.append([edge, draw(st.integers(0, len(Q) - 1))])
     return {"kind": "forced", "plain": plain, "ins": ins, "spans": spans, "rev": draw(st.booleans())}
 
 
